@@ -269,10 +269,12 @@ theorem renderGroup_eq (g : Group) : renderGroup g = groupLine g ++ ['\n'] := by
 /-- a member name: free of the member separator, the field separator and the line terminators -/
 def memberSafe (t : Text) : Bool := t.all fun c => c != ',' && c != ':' && c != '\n' && c != '\r'
 
-/-- well-formed group entry; the member list must not be empty (F16e) -/
+/-- well-formed group entry.  The member list may be empty (F16e repaired); the only list excluded is
+`[""]` (one member with an empty name), which the format cannot tell from the empty list: both are
+written as an empty member field (`group_empty_member_ambiguous`). -/
 def WFGroup (g : Group) : Bool :=
   fieldSafe g.name && fieldSafe g.password && decide (g.gid < 2 ^ 32) &&
-  !g.members.isEmpty && g.members.all memberSafe &&
+  decide (g.members ≠ [[]]) && g.members.all memberSafe &&
   (leadSpace g.name).isNone && (trailSpace (joinWith [','] g.members)).isNone &&
   decide ((groupLine g).length < defaultTokenMax)
 
@@ -280,7 +282,7 @@ structure WFGroupP (g : Group) : Prop where
   name : fieldSafe g.name = true
   password : fieldSafe g.password = true
   gid : g.gid < 2 ^ 32
-  ne : g.members ≠ []
+  ne : g.members ≠ [[]]
   mem : ∀ m ∈ g.members, memberSafe m = true
   lead : leadSpace g.name = none
   trail : trailSpace (joinWith [','] g.members) = none
@@ -288,8 +290,7 @@ structure WFGroupP (g : Group) : Prop where
 
 theorem WFGroup_spec (g : Group) (h : WFGroup g = true) : WFGroupP g := by
   unfold WFGroup at h
-  simp only [Bool.and_eq_true, decide_eq_true_eq, Option.isNone_iff_eq_none, Bool.not_eq_true',
-    List.isEmpty_eq_false_iff, List.all_eq_true] at h
+  simp only [Bool.and_eq_true, decide_eq_true_eq, Option.isNone_iff_eq_none, List.all_eq_true] at h
   obtain ⟨⟨⟨⟨⟨⟨⟨a, b⟩, c⟩, d⟩, e⟩, f⟩, g'⟩, i⟩ := h
   exact ⟨a, b, c, d, e, f, g', i⟩
 
@@ -338,17 +339,35 @@ theorem groupLine_split (g : Group) (w : WFGroupP g) :
     splitOnChar_append_sep _ _ _ (natToDec_no _ (by decide) _),
     splitOnChar_no_sep _ _ (fieldSafe_spec _ (members_fieldSafe _ w.mem)).1]
 
+/-- the member field read back: every list free of `,` except `[""]` -/
+theorem splitMembers_joinWith (l : List Text) (hne : l ≠ [[]]) (h : ∀ a ∈ l, ',' ∉ a) :
+    splitMembers (joinWith [','] l) = l := by
+  unfold splitMembers
+  by_cases hl : l = []
+  · subst hl; simp [joinWith]
+  · have hs := splitOnChar_joinWith ',' l hl h
+    split
+    · next he => rw [he] at hs; simp only [splitOnChar] at hs; exact absurd hs.symm hne
+    · exact hs
+
+/-- `strings.Join(members, ",")` of what the repaired reader made of the field is the field -/
+theorem joinWith_splitMembers (mem : Text) : joinWith [','] (splitMembers mem) = mem := by
+  unfold splitMembers
+  split
+  · next h => subst h; rfl
+  · exact joinWith_splitOnChar ',' mem
+
 theorem parseGroup_groupLine (g : Group) (w : WFGroupP g) : parseGroup (groupLine g) = some g := by
   have hl : leadSpace (groupLine g) = none := leadSpace_append_sep _ _ ':' (by decide) w.lead
   have ht : trailSpace (groupLine g) = none := by
     have e : groupLine g = (g.name ++ ':' :: (g.password ++ ':' :: natToDec g.gid)) ++ ':' :: joinWith [','] g.members := by
       simp [groupLine]
     rw [e]; exact trailSpace_sep_append _ _ ':' (by decide) w.trail
-  unfold parseGroup
+  unfold parseGroup parseGroupWith
   rw [trimSpace_id _ hl ht, groupLine_split g w]
   have h1 := w.gid
   simp only [parseInt_natToDec g.gid (by omega), toU32_ofNat _ h1,
-    splitOnChar_joinWith ',' g.members w.ne (fun a ha => (memberSafe_spec a (w.mem a ha)).1)]
+    splitMembers_joinWith g.members w.ne (fun a ha => (memberSafe_spec a (w.mem a ha)).1)]
 
 theorem groupLine_lineSafe (g : Group) (w : WFGroupP g) : lineSafe (groupLine g) = true := by
   unfold groupLine
@@ -465,7 +484,7 @@ theorem renderGroup_parseGroup (l : Text) (g : Group) (hc : canonGroupLine l = t
   simp only [Bool.and_eq_true] at hc
   obtain ⟨hcl, hnum⟩ := hc
   obtain ⟨h1, h2, _⟩ := canonLine_spec l hcl
-  unfold parseGroup at hp
+  unfold parseGroup parseGroupWith at hp
   rw [trimSpace_id l h1 h2] at hp
   have hj := joinWith_splitOnChar ':' l
   split at hp
@@ -475,7 +494,7 @@ theorem renderGroup_parseGroup (l : Text) (g : Group) (hc : canonGroupLine l = t
     rw [parseInt_natToDec a (by omega)] at hp
     simp only [Option.some.injEq] at hp
     subst hp
-    rw [renderGroup_eq, groupLine, toU32_ofNat a ha, joinWith_splitOnChar ',' mem, ← join4, hj]
+    rw [renderGroup_eq, groupLine, toU32_ofNat a ha, joinWith_splitMembers mem, ← join4, hj]
   · exact absurd hp (by simp)
 
 theorem mapAllOpt_render {α : Type} (parse : Text → Option α) (render : α → Text) :
